@@ -633,6 +633,11 @@ func runChild(p Property, c Case, exe, tmpRoot, tier string) (*CaseResult, bool)
 				res.Inconclusive++
 				res.Note("case %d: watchdog expired without deadlock witness", c.Idx)
 			}
+		} else if strings.Contains(stderrText, "bind: address already in use") && !strings.Contains(stderrText, "goroutine ") {
+			// a listener port of this worker was taken by something else on the
+			// machine: an environment fault, never a verdict about the repository
+			res.Inconclusive++
+			res.Note("case %d: a loopback port was already in use; case not judged", c.Idx)
 		} else if cc, ok := p.(CrashClassifier); ok {
 			res.Violations = append(res.Violations, cc.ClassifyCrash(c, stderrText, exitStr)...)
 		} else {
